@@ -100,8 +100,10 @@ def build(run):
 
 
 def run(run, replay=None):
+    from units.C32 import cex as _cex
+    run.fallbacks.append(("Predicate combinators (bounded enumeration)", lambda: _cex.find(run)))
     unit = build(run)
     res = unit.run(rlimit=60)
-    run.add_verus(unit, res)
+    run.add_verus(unit, res, cex_finder=lambda f: _cex.find(run, f))
     run.assumptions.append("All comparison atoms of a predicate speak about the one refinement variable (the `lhs: Str` field is ignored by the denotation); right-hand sides denote integers through the uninterpreted tp_val.")
     run.assumptions.append("invert on General<=/General>= (expression-level atoms, outside the statement's comparison atoms) is excluded by precondition: the code maps GeneralLessEqual to GeneralGreaterEqual, which is not the complement.")
